@@ -145,13 +145,17 @@ def _min_bits(n):
 
 
 def encode(chunk, block_size, order="tv", share=True, bump_bits=False,
-           reverse_table=False):
+           reverse_table=False, global_table=False):
     """Encode chunk (C,Z,Y,X; uint32/uint64).
 
     order        'tv' table then values, 'vt' values then table
     share        re-use an identical table written earlier
     bump_bits    use the next larger allowed bit width (table padded to full)
     reverse_table  store the palette in decreasing order
+    global_table  one table per channel holding every label of the channel;
+                  every block points at its start and uses the smallest bit
+                  width that reaches the largest index it needs (so blocks
+                  share one table offset with different bit widths)
     """
     chunk = np.asarray(chunk)
     C, Z, Y, X = chunk.shape
@@ -163,6 +167,14 @@ def encode(chunk, block_size, order="tv", share=True, bump_bits=False,
         struct.pack_into("<I", out, 4 * c, len(out) // 4)
         ch = bytearray(8 * gx * gy * gz)
         tables = {}
+        gpal = gindex = goff = None
+        if global_table:
+            gpal = sorted(set(int(v) for v in chunk[c].reshape(-1)),
+                          reverse=reverse_table)
+            gindex = {v: i for i, v in enumerate(gpal)}
+            goff = len(ch) // 4
+            ch.extend(b"".join(struct.pack("<Q" if words == 2 else "<I", v)
+                               for v in gpal))
         for gzi in range(gz):
             for gyi in range(gy):
                 for gxi in range(gx):
@@ -176,7 +188,10 @@ def encode(chunk, block_size, order="tv", share=True, bump_bits=False,
                                 vals.append(int(chunk[c, zz, yy, xx]))
                     pal = sorted(set(vals), reverse=reverse_table)
                     bits = _min_bits(len(pal))
-                    if bump_bits and bits < 16:
+                    if global_table:
+                        pal = gpal
+                        bits = _min_bits(max(gindex[v] for v in vals) + 1)
+                    elif bump_bits and bits < 16:
                         bits = VALID_BITS[VALID_BITS.index(bits) + 1]
                         pal = pal + [pal[-1]] * (2 ** bits - len(pal))
                     index = {}
@@ -199,6 +214,8 @@ def encode(chunk, block_size, order="tv", share=True, bump_bits=False,
                     vbytes = b"".join(struct.pack("<I", w) for w in vwords)
 
                     def put_table():
+                        if global_table:
+                            return goff
                         if share and tbytes in tables:
                             return tables[tbytes]
                         off = len(ch) // 4
